@@ -36,3 +36,10 @@ func Convert() VarFn {
 	_ = (func(a, b int, o ...Option))(impl)
 	return VarFn(impl)
 }
+
+// a forwarded multi-value call may itself be parenthesised
+func Parens() int {
+	opts((two()))
+	nnopts(((four())))
+	return pair((ints()))
+}
